@@ -206,7 +206,7 @@ def fragment_loop(ck, agg, rule="R11.6"):
     # every merged history has issued the same RF24.send() calls, so the recorded frames are representative
     nn.model.loop_key = net.radio_loop_key(nn)
     n = 0
-    for mlen in (24, 25, 47, 48, 49, 72, 73, 144):
+    for mlen in (0, 1, 23, 24, 25, 47, 48, 49, 72, 73, 144):
         for mtype in (0, 65, 127):
             n += 1
             st, node = nn.fresh(frame_pins={"message_type": mtype}, msg_len=mlen, addr=0o1)
@@ -228,6 +228,20 @@ def fragment_loop(ck, agg, rule="R11.6"):
                         "%s: after %d frame(s) the header type is left as %r" % (label, len(sends), mt))
                 if mlen <= M:
                     agg.add(rule, f, "a message of at most 24 bytes is one frame", len(sends) <= 1, "%s: %d frames" % (label, len(sends)))
+                    for ev in sends:
+                        # ... and that frame is the unmodified header followed by the whole message (0..24 bytes fit one radio payload)
+                        buf = ev.data[1]
+                        parts = list(buf.parts) if isinstance(buf, Bytes) else []
+                        pk = parts[0][0] if parts and parts[0][0][0] == "pack" else None
+                        okh = pk is not None and len(pk[2]) == 5 and const_of(norm(pk[2][3])) == mtype and net.base_deps(pk[2][4]) == {"frame_buf.header.reserved"} and \
+                            all(net.base_deps(pk[2][i_]) == {"frame_buf.header." + fl_} for i_, fl_ in enumerate(("from_node", "to_node", "frame_id")))
+                        agg.add(rule, f, "a message that fits one frame travels under its own, unmodified header", okh,
+                                "%s: the single frame's header is %r (type must stay %d, reserved and the addresses the caller's)" % (label, pk[2] if pk else parts[:1], mtype))
+                        body = parts[1:] if pk is not None else []
+                        okb = const_of(norm(buf.length())) == 8 + mlen if isinstance(buf, Bytes) else False
+                        for tag, _ln in body:
+                            okb = okb and (tag == ("sym", "frame_buf.message") or (tag[0] == "slice" and tag[1] == ("sym", "frame_buf.message") and tag[2] == 0))
+                        agg.add(rule, f, "a message that fits one frame is sent whole", okb, "%s: the single frame is %r" % (label, [t_ for t_, _l in parts]))
                     continue
                 agg.add(rule, f, "never more than ceil(n/24) frames", len(sends) <= total, "%s: %d frames" % (label, len(sends)))
                 pos = 0
@@ -260,6 +274,8 @@ def fragment_loop(ck, agg, rule="R11.6"):
                     pos = want_hi
                 if len(sends) == total:
                     full += 1
+            if mlen <= M:
+                agg.add(rule, f, "a message of at most 24 bytes is transmitted (anchor)", any(o.kind == "return" and [e for e in o.trace if e.kind == "radio-send" and e.data[0] == "send"] for o in outs), "%s: nothing is sent" % label)
             if mlen > M:
                 agg.add(rule, f, "a fully successful path emits exactly ceil(n/24) frames", full >= 1, "%s: no path emits all %d fragments" % (label, total))
     return n
